@@ -278,6 +278,8 @@ func (m *gwModel) event(i ssa.Instruction, e *explorer, st *pstate, fr *frame) (
 		return "group.Go(" + d + ")", true, true
 	case n == "time.AfterFunc":
 		return "time.AfterFunc", true, true
+	case n == "(*time.Timer).Stop":
+		return "timer.Stop", true, true
 	case n == "(*sync.Map).Store":
 		return "syncmap.Store", true, true
 	}
